@@ -1816,9 +1816,25 @@ impl<'a> CompositionGraphEncoder<'a> {
 
         // Instances first, so a later type import can alias a type from an
         // instance export instead of re-encoding it as a local definition.
-        let (instances, rest): (Vec<_>, Vec<_>) = aggregator
+        let (mut instances, rest): (Vec<_>, Vec<_>) = aggregator
             .imports()
             .partition(|(_, kind)| matches!(kind, ItemKind::Instance(_)));
+
+        // An interface is imported after the interfaces it uses types from;
+        // otherwise a used interface would first be imported as a dependency,
+        // under its own identifier rather than its canonical import name.
+        fn uses_depth(types: &Types, id: wac_types::InterfaceId) -> usize {
+            types[id]
+                .uses
+                .values()
+                .map(|used| 1 + uses_depth(types, used.interface))
+                .max()
+                .unwrap_or(0)
+        }
+        instances.sort_by_key(|(_, kind)| match kind {
+            ItemKind::Instance(id) => uses_depth(aggregator.types(), *id),
+            _ => 0,
+        });
         for (name, kind) in instances.into_iter().chain(rest) {
             log::debug!("import `{name}` is being imported");
             let index = self.import(state, name, aggregator.types(), kind);
